@@ -7,6 +7,7 @@
    (smallm), dropd the test of remove_duplicates (small, |x| < zero_tol); both are abstract
    predicates here, so the theorems hold for every tolerance and every commutative ring. *)
 From Raptor Require Import Base.Sums Sparse.Defs Sparse.ConvertProofs Sparse.Spgemm Sparse.SpgemmProofs.
+From Raptor Require Import Dist.ParSpgemm Dist.ParSpgemmProofs.
 
 Section C06.
 Variable F : Type.
@@ -116,6 +117,109 @@ Proof.
   - apply (galerkin_exact_on_integers F zero one add mul sub opp Fth smallm isint); assumption.
 Qed.
 
+(* ======================= distributed products =======================
+   The gathered product is a function of the GLOBAL factors and of the partitions (lists of
+   contiguous block sizes, empty blocks allowed): pa = rows of A, pk = inner dimension (columns
+   of A = rows of B), pc = columns of B.  `fetch r k` is what the row exchange hands rank r for
+   global row k of B; hypothesis C03_row_exchange is property C03 (row exchange delivers
+   exactly the owner's rows), proved by the comm family. *)
+Variable small : F -> bool.
+Notation dropD := (drop F zero small).
+
+(* ParCSRMatrix::mult / tap_mult: entry (i,j) of the gathered C is, for the rank r owning row i,
+   the on-process partial sum (inner indices in r's block) and the off-process partial sum, each
+   dropped by the accumulator, then added and dropped by remove_duplicates; C is nr(A) x nc(B)
+   and well formed *)
+Theorem C06_par_mult (fetch : nat -> nat -> list (nat * F)) (A B : csr F) (pa pk pc : list nat) :
+  csr_wf A -> csr_wf B -> csr_nc A = csr_nr B -> psum pa = csr_nr A ->
+  (forall r k, needs F A pa pk r k = true -> fetch r k = owner_row F B pk pc k) ->
+  let C := par_mult F zero add mul smallm small fetch A B pa pk pc in
+  (forall i j, i < csr_nr A ->
+     denCsr C i j =
+     dropD (add
+       (dropM (sumF (map (fun k => if inblk pk (owner pa i) k then mul (denCsr A i k) (denCsr B k j) else zero)
+                         (seq 0 (csr_nc A)))))
+       (dropM (sumF (map (fun k => if negb (inblk pk (owner pa i) k) then mul (denCsr A i k) (denCsr B k j) else zero)
+                         (seq 0 (csr_nc A))))))) /\
+  csr_nr C = csr_nr A /\ csr_nc C = csr_nc B /\ csr_wf C.
+Proof.
+  intros HA HB Hc Hp H3 C. split; [|split; [reflexivity|split; [reflexivity|]]].
+  - intros i j Hi. apply (den_par_mult F zero one add mul sub opp Fth); assumption.
+  - apply (par_mult_wf F zero one add mul sub opp Fth); assumption.
+Qed.
+
+(* ... which is exactly A B when no partial sum is small but non-zero; always so for integer data *)
+Theorem C06_par_mult_exact_on_integers (isint : F -> Prop) fetch (A B : csr F) (pa pk pc : list nat) i j :
+  isint zero -> (forall x y, isint x -> isint y -> isint (add x y)) ->
+  (forall x y, isint x -> isint y -> isint (mul x y)) ->
+  (forall x, isint x -> smallm x = true -> x = zero) -> (forall x, isint x -> small x = true -> x = zero) ->
+  csr_wf A -> csr_wf B -> csr_nc A = csr_nr B -> psum pa = csr_nr A ->
+  (forall r k, needs F A pa pk r k = true -> fetch r k = owner_row F B pk pc k) ->
+  (forall i k, isint (denCsr A i k)) -> (forall k j, isint (denCsr B k j)) -> i < csr_nr A ->
+  denCsr (par_mult F zero add mul smallm small fetch A B pa pk pc) i j =
+  sumF (map (fun k => mul (denCsr A i k) (denCsr B k j)) (seq 0 (csr_nc A))).
+Proof.
+  intros I0 Ia Im Is1 Is2 HA HB Hc Hp H3 IA IB Hi.
+  apply (par_mult_exact_on_integers F zero one add mul sub opp Fth smallm small isint); assumption.
+Qed.
+
+(* ParCSRMatrix::mult_T / tap_mult_T (A as ParCSC, rows of A and B partitioned by pk, columns of A by pm):
+   entry (i,j) of the gathered C = A^T B is the sum over the ranks s of the dropped partial products
+   over the rows s owns, dropped once more by remove_duplicates.  `fetchT r i` is what the reverse row
+   exchange hands rank r for its row i of C: by C03, the rows computed by the other ranks, in any order *)
+Theorem C06_par_mult_T (fetchT : nat -> nat -> list (nat * F)) (A : csc F) (B : csr F) (pk pm pc : list nat) :
+  csc_wf A -> csr_wf B -> csc_nr A = csr_nr B -> psum pm = csc_nc A -> length pm = length pk ->
+  (forall r i, inblk pm r i = true ->
+     Permutation (fetchT r i) (sentT F zero add mul smallm small A B pk pm pc r i)) ->
+  let C := par_mult_T F zero add mul smallm small fetchT A B pk pm pc in
+  (forall i j, i < csc_nc A ->
+     denCsr C i j =
+     dropD (sumF (map (fun s =>
+        dropM (sumF (map (fun k => if inblk pk s k then mul (den_csc F zero add A k i) (denCsr B k j) else zero)
+                         (seq 0 (csc_nr A)))))
+        (seq 0 (length pk))))) /\
+  csr_nr C = csc_nc A /\ csr_nc C = csr_nc B /\ csr_wf C.
+Proof.
+  intros HA HB Hc Hp Hl H3 C. split; [|split; [reflexivity|split; [reflexivity|]]].
+  - intros i j Hi. apply (den_par_mult_T F zero one add mul sub opp Fth); assumption.
+  - apply (par_mult_T_wf F zero one add mul sub opp Fth); assumption.
+Qed.
+
+Theorem C06_par_mult_T_exact_on_integers (isint : F -> Prop) fetchT (A : csc F) (B : csr F) (pk pm pc : list nat) i j :
+  isint zero -> (forall x y, isint x -> isint y -> isint (add x y)) ->
+  (forall x y, isint x -> isint y -> isint (mul x y)) ->
+  (forall x, isint x -> smallm x = true -> x = zero) -> (forall x, isint x -> small x = true -> x = zero) ->
+  csc_wf A -> csr_wf B -> csc_nr A = csr_nr B ->
+  psum pm = csc_nc A -> psum pk = csc_nr A -> length pm = length pk ->
+  (forall r i, inblk pm r i = true ->
+     Permutation (fetchT r i) (sentT F zero add mul smallm small A B pk pm pc r i)) ->
+  (forall k i, isint (den_csc F zero add A k i)) -> (forall k j, isint (denCsr B k j)) -> i < csc_nc A ->
+  denCsr (par_mult_T F zero add mul smallm small fetchT A B pk pm pc) i j =
+  sumF (map (fun k => mul (den_csc F zero add A k i) (denCsr B k j)) (seq 0 (csc_nr A))).
+Proof.
+  intros I0 Ia Im Is1 Is2 HA HB Hc Hpm Hpk Hl H3 IA IB Hi.
+  apply (par_mult_T_exact_on_integers F zero one add mul sub opp Fth smallm small isint); assumption.
+Qed.
+
+(* the coarse operator as the AMG setup forms it (AP = A->mult(P); Ac = AP->mult_T(P)), with the exchanges
+   that deliver the owners' rows: on integer data it is exactly the triple product P^T A P, for every
+   partition pa of the fine rows and pc of the coarse columns *)
+Theorem C06_par_galerkin_exact_on_integers (isint : F -> Prop) (A P : csr F) (pa pc : list nat) i j :
+  isint zero -> (forall x y, isint x -> isint y -> isint (add x y)) ->
+  (forall x y, isint x -> isint y -> isint (mul x y)) ->
+  (forall x, isint x -> smallm x = true -> x = zero) -> (forall x, isint x -> small x = true -> x = zero) ->
+  csr_wf A -> csr_wf P -> csr_nc A = csr_nr P -> csr_nr A = csr_nr P ->
+  psum pa = csr_nr A -> psum pc = csr_nc P -> length pc = length pa ->
+  (forall i k, isint (denCsr A i k)) -> (forall k j, isint (denCsr P k j)) -> i < csr_nc P ->
+  denCsr (par_galerkin F zero add mul smallm small A P pa pc) i j =
+  sumF (map (fun k => mul (denCsr P k i)
+                          (sumF (map (fun l => mul (denCsr A k l) (denCsr P l j)) (seq 0 (csr_nc A)))))
+            (seq 0 (csr_nr P))).
+Proof.
+  intros I0 Ia Im Is1 Is2 HA HP Hc Hn Hpa Hpc Hl IA IP Hi.
+  apply (par_galerkin_exact_on_integers F zero one add mul sub opp Fth smallm small isint); assumption.
+Qed.
+
 End C06.
 
 (* ---------- the hypotheses are satisfiable; the statements are not about empty things ---------- *)
@@ -143,6 +247,23 @@ Example C06_spgemm_exact_on_integers_nonvacuous :
   (fun _ : Z => True) 0%Z /\ (forall x, True -> Zsmall x = true -> x = 0%Z).
 Proof. split; [exact I|]. intros x _ H. apply Z.eqb_eq. exact H. Qed.
 
+(* distributed: 2 ranks, A = [[1,1],[0,2]] rows [1;1] cols [1;1], P = [[1],[-1]] rows [1;1], cols [1;0] *)
+Definition exAc : csr Z := mkCsr 2 2 [[(0, 1%Z); (1, 1%Z)]; [(1, 2%Z)]].
+Definition exPc : csr Z := mkCsr 2 1 [[(0, 1%Z)]; [(0, (-1)%Z)]].
+Example C06_par_mult_nonvacuous :
+  let fetch := fun (_ k : nat) => owner_row Z exPc [1; 1] [1; 0] k in
+  (forall r k, needs Z exAc [1; 1] [1; 1] r k = true -> fetch r k = owner_row Z exPc [1; 1] [1; 0] k) /\
+  psum [1; 1] = csr_nr exAc /\ csr_nc exAc = csr_nr exPc /\
+  needs Z exAc [1; 1] [1; 1] 0 1 = true /\
+  csr_rows (par_mult Z 0%Z Z.add Z.mul Zsmall Zsmall fetch exAc exPc [1; 1] [1; 1] [1; 0]) = [[]; [(0, (-2)%Z)]].
+Proof. cbv zeta. split; [intros; reflexivity|]. repeat split. Qed.
+
+Example C06_par_galerkin_nonvacuous :
+  csr_rows (par_galerkin Z 0%Z Z.add Z.mul Zsmall Zsmall exAc exPc [1; 1] [1; 0]) = [[(0, 2%Z)]] /\
+  (forall r i, Permutation (sentT Z 0%Z Z.add Z.mul Zsmall Zsmall (csr_to_csc exPc) exPc [1; 1] [1; 0] [1; 0] r i)
+                           (sentT Z 0%Z Z.add Z.mul Zsmall Zsmall (csr_to_csc exPc) exPc [1; 1] [1; 0] [1; 0] r i)).
+Proof. split; [reflexivity|intros; apply Permutation_refl]. Qed.
+
 Print Assumptions C06_accumulator_refines_row_spec.
 Print Assumptions C06_mult.
 Print Assumptions C06_mult_stored.
@@ -151,3 +272,8 @@ Print Assumptions C06_mult_T.
 Print Assumptions C06_galerkin.
 Print Assumptions C06_galerkin_exact.
 Print Assumptions C06_spgemm_exact_on_integers.
+Print Assumptions C06_par_mult.
+Print Assumptions C06_par_mult_exact_on_integers.
+Print Assumptions C06_par_mult_T.
+Print Assumptions C06_par_mult_T_exact_on_integers.
+Print Assumptions C06_par_galerkin_exact_on_integers.
